@@ -27,6 +27,19 @@ def unq(t):
     return t[1:-1]
 
 
+REGRESS_FIXED = [b'env', b'pkg-add', b'cvs', b'patch', b'obj', b'mount', b'umount', b'revert', b'pkg-del', b'dmesg', b'end']
+
+
+def propose(res, pid, f):
+    """an oracle failure of a defect class that was reported but may not be in known_findings.json yet: it counts as
+    an oracle failure once the entry exists, until then it is recorded in the evidence only"""
+    if common.match_known(pid, f['signature']):
+        res.oracle_failures.append(f)
+    else:
+        res.extra.setdefault('proposed_findings', {}).setdefault(f['signature'], f['what'])
+        res.count('proposed finding, not in known_findings.json yet: ' + f['signature'])
+
+
 def configured(mode, ents):
     """what the generator configured, for the oracle: (name, runs in parallel) in order, and the global switch"""
     gpar = True
@@ -64,6 +77,18 @@ def gen_case(rng, g):
                 par = [b'parallel'] if b'parallel' in e[2:] else []
                 e[1:] = [conf_gen.q(rng.choice(fam))] + par + [b'command', b'{', conf_gen.q(b'echo'), conf_gen.q(b'STEP%d' % k), b'}']
         case['literal_cmds'] = True
+    if mode == 'robsd-regress' and rng.random() < 0.10:
+        # a test named like a fixed step: the runner addresses steps by name, first match
+        for e in ents:
+            if e[0] == b'regress' and rng.random() < 0.5:
+                e[1] = conf_gen.q(rng.choice([b'umount', b'env', b'end', b'mount', b'dmesg', b'cvs']))
+                break
+    if mode in ('robsd-regress', 'canvas') and rng.random() < 0.06:
+        # white space in a name: the listing is read back word by word by the orchestrator
+        for e in ents:
+            if e[0] in (b'regress', b'step') and rng.random() < 0.5:
+                e[1] = conf_gen.q(rng.choice([b'a b', b'c parallel', b'x\n7 y', b'tab\tname']))
+                break
     if rng.random() < 0.12:
         case['kind'], text = g.corrupt(mode, ents, st)
     else:
@@ -144,6 +169,11 @@ def per_case(world, case, offsets_all):
         obs['lists'].append((o, run_list(world, case, conf, o)))
     if lines:
         seen = []
+        cfgn = [bytes.fromhex(nm) for nm, _ in case.get('cfgd', [])]
+        if any(b'\n' in n or n.endswith(b' parallel') for n in cfgn):
+            # the lines do not determine the names (findings/C10_name_collisions.md): hand the configured names to the runner
+            lines = [(k, nm, p) for k, nm, p in lines if nm in REGRESS_FIXED] + [(0, n, False) for n in cfgn]
+            obs['lines'] = None
         for _, name, _ in lines:
             if name not in seen and b'\0' not in name:
                 seen.append(name)
@@ -249,7 +279,39 @@ def evaluate(ctx, cases, res, world=None, offsets_all=False):
                 dis('exec %r trace=%s' % (name, tr), 'rc=%d out=%r argv=%r' % (erc, eout[:80], argv), 'rc=%d out=%r' % (rc, out[:80]), err[-200:].decode('latin1'))
         # oracle on the implementation's listings
         lines = ob['lines']
-        if fullrc == 0 and lines is None:
+        ambiguous = False
+        wsnames = [bytes.fromhex(nm) for nm, _ in case.get('cfgd', []) if re.search(rb'\s', bytes.fromhex(nm))]
+        if fullrc == 0 and wsnames:
+            # "<number> <name>[ parallel]" does not determine the step: util.sh reads the line back with
+            # `read -r _step _name _parallel`
+            propose(res, 'C10', {'case': case, 'signature': 'listing-name-with-white-space',
+                                 'what': 'the accepted configuration lists a step named %r; the line format "N name[ parallel]" of robsd-step -L '
+                                         'is read back word by word (name %r)' % (wsnames[0], wsnames[0].split()[0] if wsnames[0].split() else b'')})
+            if any(b'\n' in n or n.endswith(b' parallel') for n in wsnames):
+                lines, ambiguous = None, True          # the lines no longer determine (number, name, flag): nothing below applies
+        if fullrc == 0 and lines and 'cfgd' in case:
+            # a listed position that no invocation of the runner can reach: its name occurs earlier with another command
+            # (decided from what was configured, independently of the model)
+            cnames = [bytes.fromhex(nm) for nm, _ in case['cfgd']]
+            unreachable = None
+            if case['mode'] == 'robsd-regress':
+                hit = [n for n in cnames if n in REGRESS_FIXED]
+                if hit:
+                    unreachable = 'regress test %r is named like a fixed step' % hit[0]
+            elif case['mode'] == 'canvas':
+                if b'end' in cnames:
+                    unreachable = 'a configured step is called end like the synthetic last step'
+                elif case.get('literal_cmds') and len(set(cnames)) < len(cnames):
+                    unreachable = 'two configured steps with different commands share the name %r' % [n for n in cnames if cnames.count(n) > 1][0]
+            if unreachable:
+                listed = [nm for _, nm, _ in lines]
+                if len(set(listed)) < len(listed):
+                    propose(res, 'C10', {'case': case, 'signature': 'listed-step-unreachable',
+                                         'what': unreachable + ': robsd-step -L lists both positions, robsd-exec runs the first one for either name'})
+                else:
+                    res.oracle_failures.append({'case': case, 'signature': 'configured-step-not-listed',
+                                                'what': unreachable + ', but the listing does not show the name twice: %r' % listed[:20]})
+        if fullrc == 0 and lines is None and not ambiguous:
             res.oracle_failures.append({'case': case, 'signature': 'listing-unparsable', 'what': 'robsd-step -L printed lines not of the form "N name[ parallel]"'})
         if lines is not None:
             ltok = [str(len(lines))] + [t for k, nm, p in lines for t in (str(k), hexs(nm), '1' if p else '0')]
@@ -293,7 +355,8 @@ def load_corpus():
 def run(ctx, n=None):
     res = common.Result()
     res.rule = ('configurations of the five modes derived from the documented grammar, three in eight robsd-regress with 1-6 tests and any mix of '
-                'no-parallel / parallel yes|no, two in eight canvas step lists; about one in eight corrupted; full listing, offsets 1,2,N/2,N-1,N,N+1,N+4 '
+                'no-parallel / parallel yes|no, two in eight canvas step lists; one regress configuration in ten with a test named like a fixed '
+                'step, a few names with blanks / a newline / ending in " parallel"; about one in eight corrupted; full listing, offsets 1,2,N/2,N-1,N,N+1,N+4 '
                 '(every offset 1..N+2 in the thorough tier), 0, 2^32, INT_MAX, non-numeric; every distinct listed name executed through robsd-exec '
                 'against stub scripts; non-trivial = a listed regress or canvas configuration; distinct by content hash')
     n = n or ctx.budget(220, 6000)
